@@ -75,7 +75,7 @@ Close == /\ Is("close") /\ Has(Ev.h)
          /\ UNCHANGED <<L, FD, FK, vp, exp>>
 
 Remember(out) == exp' = IF KeepExp THEN Append(exp, out) ELSE exp
-OOC == TLCSet(2, TLCGet(2) + 1)
+OOC == PrintT(<<"OOCLINE", l>>) /\ TLCSet(2, TLCGet(2) + 1)
 
 (* one positioning call on a point iterator.  A call outside the documented     *)
 (* caller contract is the generator's fault, not the code's: it is accepted,    *)
@@ -90,11 +90,16 @@ IterOp == /\ Is("it") /\ Has(Ev.h) /\ hs[Ev.h].t = "pt"
              ELSE /\ OOC /\ Put(Ev.h, [h EXCEPT !.it.st = "undef"]) /\ Remember({Ev.res})
           /\ UNCHANGED <<L, FD, FK, vp>>
 
+(* the keys of a fragment are compared as a set: their order inside a fragment is an   *)
+(* encoding detail (rowblk regroups them; a synthetic seqnum makes trailers equal)     *)
+FragMatch(res, f) == IF f = Nil THEN res = Nil
+                     ELSE /\ Len(res) = 3 /\ res[1] = f[1] /\ res[2] = f[2]
+                          /\ Len(res[3]) = Len(f[3]) /\ ToSet(res[3]) = ToSet(f[3])
 FragOp == /\ Is("fit") /\ Has(Ev.h) /\ hs[Ev.h].t \in {"rd", "rk"}
           /\ LET h == hs[Ev.h] IN
              IF FEnabled(h.it, Ev.o)
              THEN LET r == FStep(h.list, h.it, Ev.o, Ev.k) IN
-                    /\ Ev.res \in r.out
+                    /\ \E f \in r.out : FragMatch(Ev.res, f)
                     /\ Put(Ev.h, [h EXCEPT !.it = r.ft])
                     /\ Remember(r.out)
              ELSE /\ OOC /\ Put(Ev.h, [h EXCEPT !.it.st = "unpos"]) /\ Remember({Ev.res})
